@@ -318,7 +318,7 @@ Proof.
   intros n i j e. unfold FQ.correlate_pairs. rewrite in_flat_map. split.
   - intros [i1 [H1 H2]]. rewrite in_seq in H1. rewrite in_map_iff in H2. destruct H2 as [i2 [H2 H3]].
     rewrite in_seq in H3. unfold FitGlueQ.corr_row, FitGlueQ.corr_col in H2.
-    injection H2 as <- <- <-. repeat split; try lia.
+    injection H2 as <- <- <-. repeat split; try lia; try (f_equal; lia).
   - intros [Hij [Hjn ->]]. exists i. split; [rewrite in_seq; lia|].
     rewrite in_map_iff. exists (j - i - 1)%nat. split.
     + unfold FitGlueQ.corr_row, FitGlueQ.corr_col. repeat f_equal; lia.
